@@ -49,7 +49,7 @@ impl Key {
     }
 
     pub fn from_file_name(name: &str) -> Self {
-        let key = name.trim_end_matches(".md").to_string();
+        let key = name.strip_suffix(".md").unwrap_or(name).to_string();
 
         Key {
             relative_path: Arc::new(key),
@@ -57,7 +57,7 @@ impl Key {
     }
 
     pub fn from_rel_link_url(url: &str, relative_to: &str) -> Self {
-        let key = url.trim_end_matches(".md").to_string();
+        let key = url.strip_suffix(".md").unwrap_or(url).to_string();
         let path = RelativePath::new(relative_to).join(key).to_string();
         Key {
             relative_path: Arc::new(path),
@@ -84,8 +84,7 @@ impl Key {
 
     pub fn from_path(path: &PathBuf) -> Key {
         let name = path.file_name().unwrap().to_string_lossy().to_string();
-        let key = name.trim_end_matches(".md").to_string();
-        Key::from_file_name(&key)
+        Key::from_file_name(&name)
     }
 }
 
